@@ -55,6 +55,20 @@ def jobs_for(tier, rng):
                      "calls": [2], "mbs": rng.choice([3, 1024]),
                      "injects": [{"v": gen.rand_values(rng, m["ns"], vmax=6)} for _ in range(2)], "tag": f"rare{k}",
                      "must_complete": True})
+    # events of probability exactly zero whose successor lies outside the state space (index beyond the last state)
+    for k in range(5 if tier == "quick" else 40):
+        m = T.random_mdp(rng, ns=rng.randint(3, 9), na=2, ne=3, PD=rng.choice([2, 4]), rmax=3, v0max=2, plain_render=True)
+        for sa in m["pk"]:
+            for row in sa:
+                if 0 not in row:                                  # make sure impossible events occur
+                    j = rng.randrange(3)
+                    row[(j + 1) % 3] += row[j]
+                    row[j] = 0
+        m["render"]["wild_zero_prob"] = True
+        jobs.append({"mdp": m, "kind": rng.choice(["VI", "VI", "SAVI"]), "gamma": rng.choice(GAMMAS[:3]), "eps": [1, 4],
+                     "test": rng.choice(["span", "max_diff"]), "calls": [3], "mbs": rng.choice([2, 1024]), "shuffle": False,
+                     "injects": [{"v": gen.rand_values(rng, m["ns"], vmax=6)} for _ in range(2)], "tag": f"wildzero{k}",
+                     "must_complete": True})
     # coarse sub-stochastic rows (a problem may leave out events on purpose), including single-event problems whose
     # only event has an action-dependent probability below one
     for k in range(6 if tier == "quick" else 40):
